@@ -45,11 +45,16 @@ def sx(s):
 # "alternative input forms": while ALT[0] is set (only inside run_alt), byte-string arguments are handed to the library
 # as bytearray and index paths as one-shot iterators — values the unchanged library accepts and must treat alike
 ALT = [False]
+ALT_BUFFERS = {}        # protocol token -> the bytearray handed to the library (re-used by the second run of run_alt)
 
 
 def unhex(s):
     b = b"" if s == "-" else bytes.fromhex(s)
-    return bytearray(b) if ALT[0] else b
+    if not ALT[0]:
+        return b
+    if s not in ALT_BUFFERS:
+        ALT_BUFFERS[s] = bytearray(b)
+    return ALT_BUFFERS[s]
 
 
 def unstr(s):
@@ -78,7 +83,30 @@ def boolS(b):
     return "1" if b else "0"
 
 
+COPY = [None]          # "pickle" | "deepcopy" | "copy": objects pass through that copy before they are used / inspected
+
+
+def cp(obj):
+    """the object itself, or (copy exploration) a pickle round trip / deepcopy / shallow copy of it"""
+    if COPY[0] is None:
+        return obj
+    import copy
+    import pickle
+    if COPY[0] == "pickle":
+        return pickle.loads(pickle.dumps(obj))
+    return copy.deepcopy(obj) if COPY[0] == "deepcopy" else copy.copy(obj)
+
+
+def run_copy(line, how):
+    COPY[0] = how
+    try:
+        return run(line)
+    finally:
+        COPY[0] = None
+
+
 def nodeS(nd):
+    nd = cp(nd)
     return " ".join([
         "N", "P" if type(nd) is bip32.PrvKeyNode else "p", hx(nd.key), hx(nd.chain_code),
         str(nd.depth), str(nd.index), boolS(nd.testnet), hx(nd.parent_fingerprint),
@@ -195,6 +223,7 @@ def make_wallet(spec, cls=None):
 
 
 def walletS(w):
+    w = cp(w)
     return " ".join(["W", boolS(w.testnet), boolS(w.watch_only), nodeS(w.master),
                      jsonS(w.mnemonic), jsonS(w.password)])
 
@@ -383,6 +412,13 @@ def _run(tok):
         return hx(bip39.bip39_seed_from_mnemonic(unstr(a[0]), unstr(a[2])))
     if op == "wallet":
         return walletS(make_wallet(a[0]))
+    if op == "wallet_held":
+        w1 = make_wallet(a[0])          # held while another wallet is created (which may fail), inspected afterwards
+        try:
+            make_wallet(a[1])
+        except Exception:
+            pass
+        return walletS(w1)
     # C05
     if op == "addr":
         t = unbool(a[2])
@@ -787,12 +823,17 @@ class BadOp(Exception):
 
 
 def run_alt(line):
-    """the same operation with byte strings as bytearray and paths as iterators"""
+    """the same operation with byte strings as bytearray and paths as iterators — run TWICE on the same buffer
+    objects, the second answer is returned: a call that modifies the caller's buffers gives itself away"""
     ALT[0] = True
+    ALT_BUFFERS.clear()
     try:
-        return run(line)
+        first = run(line)
+        second = run(line)
+        return second if second != first else first
     finally:
         ALT[0] = False
+        ALT_BUFFERS.clear()
 
 
 def run(line):
